@@ -381,7 +381,8 @@ fn flat_keys<'a>(sels: &'a [Sel], doc: &'a Doc, seen: &mut Vec<String>, out: &mu
 /// The feature vocabulary of signatures is deliberately small (what shrinking cannot remove but is incidental —
 /// nesting depth, plain aliases, type conditions needed for field validity — is not part of it):
 /// cond-var / cond-literal (@skip/@include on a variable / literal), same-key-twice (a response key contributed
-/// twice to one object, through fragments too). (Aliased `__typename` / an alias named `__typename` were features
+/// twice to one object, through fragments too), alias-own-name (a field aliased to its own name, `a: a` — typed apart
+/// from the unaliased selections of the field until /repo dda35cd). (Aliased `__typename` / an alias named `__typename` were features
 /// until their defect was repaired in /repo 72cec20; a regression now shows up under an unlisted signature.)
 fn sel_features(sels: &[Sel], doc: &Doc, f: &mut BTreeSet<&'static str>) {
     let mut keys = vec![];
@@ -393,7 +394,10 @@ fn sel_features(sels: &[Sel], doc: &Doc, f: &mut BTreeSet<&'static str>) {
     }
     for s in sels {
         match s {
-            Sel::Field { dirs, sel, .. } => {
+            Sel::Field { alias, name, dirs, sel, .. } => {
+                if alias.as_ref().map(|a| &a.0) == Some(name) {
+                    f.insert("alias-own-name");
+                }
                 dir_features(dirs, f);
                 if let Some(ss) = sel {
                     sel_features(ss, doc, f);
@@ -846,6 +850,18 @@ pub fn corpus() -> Vec<Case> {
         ("query Q($b: Boolean!) { me { friends { name } friends { id @skip(if: $b) } } }", false),
         ("fragment OnlyFrag on SearchResult { ... on User { name } } query Q { search { ...OnlyFrag } }", false),
         ("query Q { me { id id2: id name } me2: me { id } }", false),
+        // dda35cd: a field aliased to its OWN name — alone, next to unaliased selections of the same field, with and
+        // without @skip/@include, through fragments and inline fragments, leaves and composites
+        ("query Q($v: Boolean!) { a: a @skip(if: $v) { x } a { y } }", false),
+        ("query Q { a: a { x } }", false),
+        ("query Q { a: a { x } a { y } }", false),
+        ("query Q($v: Boolean!) { a { y } a: a @include(if: $v) { x z: z { x: x } z { y } } }", false),
+        ("query Q($v: Boolean!) { ...F a { y } } fragment F on Query { a: a @skip(if: $v) { x } }", false),
+        ("query Q($v: Boolean!) { me { name: name ... on User { name @skip(if: $v) } friends: friends { id } friends { name } } }", false),
+        ("query Q($v: Boolean!) { f: f @skip(if: $v) f n: n }", false),
+        ("query Q($v: Boolean!) { node { id: id ... on User { id name: name @include(if: $v) } ... on Post { title: title title } } }", false),
+        ("query Q($v: Boolean!) { search { ... on User { posts: posts @skip(if: $v) { title } posts { author { name } } } } }", false),
+        ("query Q { me { __typename: __typename __typename } }", false),
     ];
     docs.into_iter()
         .map(|(d, inv)| Case { sdl: vec![CORPUS_SDL.into()], abstract_schema: None, doc: d.into(), config: CORPUS_CONFIG.into(), invalid_by_merge_rule: inv })
@@ -884,6 +900,11 @@ pub fn gen_case(rng: &mut Rng, rep: &mut Report) -> Case {
     if rng.chance(1, 12) {
         if inject_alias_named_typename(rng, &schema, &mut doc) {
             extra.push("injected:alias-named-typename".to_string());
+        }
+    }
+    if rng.chance(1, 5) {
+        if inject_alias_own_name(rng, &schema, &mut doc) {
+            extra.push("injected:alias-own-name".to_string());
         }
     }
     for f in features.iter().chain(extra.iter()) {
@@ -1036,6 +1057,102 @@ fn inject_alias_named_typename(rng: &mut Rng, schema: &SchemaModel, doc: &mut Do
     let inner = Sel::Field { alias: Some(("__typename".into(), P::default())), name: l.name.clone(), name_pos: P::default(), args: vec![], dirs: vec![], sel: None };
     op.sel.push(Sel::Field { alias: Some(("injT".into(), P::default())), name: f.name.clone(), name_pos: P::default(), args: vec![], dirs: vec![], sel: Some(vec![inner]) });
     true
+}
+
+/// alias-less fields get their own name as alias (`a` becomes `a: a`), anywhere in the document (operations and
+/// fragments, through inline fragments, leaves and composites) — the response key is unchanged, so validity is
+/// unaffected; one of two merged duplicates aliased this way is the family of /repo dda35cd.
+fn alias_own_name_in(rng: &mut Rng, sels: &mut Vec<Sel>, num: u32, den: u32, done: &mut usize) {
+    for s in sels.iter_mut() {
+        match s {
+            Sel::Field { alias, name, sel, .. } => {
+                if alias.is_none() && rng.chance(num, den) {
+                    *alias = Some((name.clone(), P::default()));
+                    *done += 1;
+                }
+                if let Some(ss) = sel {
+                    alias_own_name_in(rng, ss, num, den, done);
+                }
+            }
+            Sel::Inline { sel, .. } => alias_own_name_in(rng, sel, num, den, done),
+            Sel::Spread { .. } => {}
+        }
+    }
+}
+
+/// the family "alias equal to the field's own name": (a) some alias-less fields of the document are aliased to their own
+/// name; (b) on an argument-less composite root field `f` not yet selected, `f: f @skip/@include(if: $inj) { p }` is put
+/// next to an unaliased `f { q }` (directly, or with the aliased copy behind an inline fragment)
+fn inject_alias_own_name(rng: &mut Rng, schema: &SchemaModel, doc: &mut Doc) -> bool {
+    let mut done = 0usize;
+    let (num, den) = if rng.coin() { (1, 2) } else { (1, 5) };
+    for d in doc.defs.iter_mut() {
+        match d {
+            ExecDef::Op(o) => alias_own_name_in(rng, &mut o.sel, num, den, &mut done),
+            ExecDef::Frag(f) => alias_own_name_in(rng, &mut f.sel, num, den, &mut done),
+            ExecDef::Import(_) => {}
+        }
+    }
+    if rng.coin() {
+        if let Some((op, _)) = first_op_sel(doc) {
+            if op.kind != OpKind::Subscription {
+                if let Some(rt) = schema.root(op.kind).and_then(|r| schema.type_def(r)) {
+                    let ok_args = |g: &FieldDef| g.args.iter().all(|a| !a.ty.is_non_null() || a.default.is_some());
+                    let cands: Vec<&FieldDef> = rt
+                        .fields
+                        .iter()
+                        .filter(|f| ok_args(f) && schema.kind_of(f.ty.unwrapped()) == Some(TypeKind::Object))
+                        .filter(|f| !op.sel.iter().any(|s| s.response_key() == Some(f.name.as_str())))
+                        .collect();
+                    if !cands.is_empty() {
+                        let f = cands[rng.below(cands.len())];
+                        let target = schema.type_def(f.ty.unwrapped()).unwrap();
+                        let leafs: Vec<&FieldDef> = target.fields.iter().filter(|g| ok_args(g) && !schema.is_composite(g.ty.unwrapped())).collect();
+                        if !leafs.is_empty() {
+                            let var = "inj".to_string();
+                            let l1 = leafs[rng.below(leafs.len())];
+                            let l2 = leafs[rng.below(leafs.len())];
+                            let dirs = if rng.chance(3, 4) {
+                                vec![Dir::new(if rng.coin() { "skip" } else { "include" }, vec![Arg::new("if", Val::Var(var.clone(), P::default()))])]
+                            } else {
+                                vec![]
+                            };
+                            let uses_var = !dirs.is_empty();
+                            let aliased = Sel::Field {
+                                alias: Some((f.name.clone(), P::default())),
+                                name: f.name.clone(),
+                                name_pos: P::default(),
+                                args: vec![],
+                                dirs,
+                                sel: Some(vec![Sel::Field { alias: None, name: l1.name.clone(), name_pos: P::default(), args: vec![], dirs: vec![], sel: None }]),
+                            };
+                            let plain = Sel::Field {
+                                alias: None,
+                                name: f.name.clone(),
+                                name_pos: P::default(),
+                                args: vec![],
+                                dirs: vec![],
+                                sel: Some(vec![Sel::Field { alias: None, name: l2.name.clone(), name_pos: P::default(), args: vec![], dirs: vec![], sel: None }]),
+                            };
+                            let aliased = if rng.chance(1, 3) { Sel::Inline { cond: None, dirs: vec![], sel: vec![aliased], pos: P::default() } } else { aliased };
+                            if rng.coin() {
+                                op.sel.push(aliased);
+                                op.sel.push(plain);
+                            } else {
+                                op.sel.push(plain);
+                                op.sel.push(aliased);
+                            }
+                            if uses_var && !op.vars.iter().any(|v| v.name == var) {
+                                op.vars.push(VarDef { name: var, pos: P::default(), ty: Ty::non_null(Ty::named("Boolean")), default: None, dirs: vec![] });
+                            }
+                            done += 1;
+                        }
+                    }
+                }
+            }
+        }
+    }
+    done > 0
 }
 
 /// non-trivial by the rule: the document has ≥ 2 branches somewhere (abstract type or Boolean variable) or a
